@@ -284,6 +284,8 @@ func (v *FnVerifier) globalKey(name string, t types.Type) string {
 	if n, ok := v.eng.sentinels[name]; ok {
 		if _, seen := v.sentinelKeys[k]; !seen {
 			v.sentinelKeys[k] = fmt.Sprintf("(mk-iface 9001 (- %d))", n)
+			cause := v.smt.declareFun("uf!errCause", []string{"Iface"}, "Iface")
+			v.smt.axiom(eq(app(cause, v.sentinelKeys[k]), v.sentinelKeys[k]))
 			v.smt.note("package-level error variables initialised by errors.New are constants (non-nil, pairwise distinct, never reassigned)")
 		}
 	}
